@@ -425,3 +425,53 @@ def unit_resp_length(prop="C06"):
         return u
     unit.__name__ = "resp_length"
     return unit
+
+
+# GaborFilterBank.get_truncated_response: C06's "the start bin lies in [0, width)" and the shape of the answer - either the whole period
+# (start bin 0, the full response of length width: callee contract above) when the doubled support reaches 2 pi, or bins
+# ceil(width * low / 2 pi) .. floor(width * high / 2 pi) (start bin reduced modulo width, 1 + right - left values, never negative).
+def contract_trunc_shape():
+    def h_exp(ex, st, args, kwargs, node, ev):
+        return fresh("exp_value", "real")
+
+    def h_full(ex, st, o, args, kwargs, node, ev):
+        ok = len(args) == 2 and not kwargs and args[0] is st.env["filt_idx"] and args[1] is st.env["width"]
+        ex.oblige(st, ok, f"whole_period_is_the_full_response_of_this_filter_and_width.L{node.lineno - ex.fx.lineno}", "trace", node.lineno)
+        k = z3.Int("fk!%d" % next(symex._fresh))
+        fr = z3.Function("full_response_value!%d" % next(symex._fresh), I, R)
+        return st.new_root(Z(st.env["width"]), z3.Lambda([k], fr(k)), "float64", "fresh", "full_response")
+
+    return Contract(
+        target="filters:GaborFilterBank.get_truncated_response", uses=["A-REAL", "A-PYSEM", "A-MATH"],
+        consts={"np.pi": PI, "np.float64": Opaque("float64", "dtype")},
+        handlers={"np.exp": h_exp, "np.log": h_log, "np.sqrt": h_sqrt, "GaborFilterBank.get_frequency_response": h_full, "self.get_frequency_response": h_full},
+        loops={0: LoopSpec(kind="for", invariant=[("array_keeps_its_length", "len(res) == 1 + right_idx - left_idx")]),
+               1: LoopSpec(kind="for", invariant=[("array_keeps_its_length", "len(res) == 1 + right_idx - left_idx")])},
+        ensures=[("start_bin_in_range", "0 <= result[0] and result[0] < width"),
+                 ("one_value_per_bin_of_the_support", "len(result[1]) >= 0")],
+    )
+
+
+def unit_trunc_shape(prop="C06"):
+    def unit(tier, known):
+        from contracts.registry import run_contract
+        from contracts import filters_tri as T
+
+        def setup(ex, st):
+            _setup_resp("GaborFilterBank", False)(ex, st)
+            from pyvc.api import SeqVal
+            wrap = z3.Function("wrap_support_ang", I, R)
+            st.fields[("self", "_wrap_supports_ang")] = SeqVal(api.sym("num_filts"), lambda j: wrap(Z(j)))
+            st.env.pop("half", None)
+
+        def tc(ob):
+            out = []
+            for c in T.to_case_frequency(ob):
+                b = dict(c["bank"], bank="gabor")
+                b.pop("analytic", None)
+                out.append(dict(c, bank=b))
+            return out
+        return run_contract(prop, ("filters", "GaborFilterBank.get_truncated_response"), contract_trunc_shape(), [("", setup)], name="gabor_trunc_shape",
+                            fname="GaborFilterBank.get_truncated_response", to_case=tc, replay_module="rtc.c06")
+    unit.__name__ = "gabor_trunc_shape"
+    return unit
